@@ -45,3 +45,61 @@ Theorem C20_mask_matcher : forall c t h l o1 o2,
   map sig_of o1 = map sig_of o2 /\ forallb disabled_part o2 = true.
 Proof. exact mask_matcher. Qed.
 Print Assumptions C20_mask_matcher.
+
+(* ====================================================================================================
+   CONCRETE INSTANCE: tcp_step := the packet-level TCP analyzer model (Model/TcpAnalyzer.v tcp_packet_step; packets
+   are events (frame, clock reading)) with its result as the five field groups syn, syn_ack, mtu, client uptime,
+   server uptime (Model/AnalyzerReports.v tcp_pres: g_sig = signature text / MTU / uptime token; match parts empty,
+   OS matching is C02/C12; the MTU group carries the link of the MTU table); tls_fn := the STATELESS TLS path of the
+   unified analyzer (tls_process.rs process_tls_ipv4/ipv6/process_tls_tcp: is_tls_traffic + parse_tls_client_hello
+   on THIS packet's TCP payload, never an error; tls_ufn); http_step stays abstract until the HTTP flow model lands.
+   Proofs: Proofs/DischargeInstances.v. *)
+From Coq Require Import ZArith.
+From HN Require Import Model.AnalyzerReports Proofs.KeyedExamples Proofs.DischargeInstances Proofs.DischargeExamples.
+From HN Require Model.TcpAnalyzer Model.TcpExtract.
+
+Theorem C20_trace_union_tcp_tls_concrete :
+  forall (SH : Type) (http_step : SH -> TcpAnalyzer.tcp_event -> SH * pres) (db : list (bytes * list N)) (cap : N)
+         (c : cfg) (tr : list TcpAnalyzer.tcp_event) (st : TcpAnalyzer.tcp_state) (sh : SH),
+  trace_accepts TcpAnalyzer.tcp_event TcpAnalyzer.tcp_state SH (tcp_ustep db cap) http_step tls_ufn c st sh tr ->
+  map Some (unified_run TcpAnalyzer.tcp_event TcpAnalyzer.tcp_state SH (tcp_ustep db cap) http_step tls_ufn c (st, sh) tr)
+  = spec_run_enabled TcpAnalyzer.tcp_event TcpAnalyzer.tcp_state SH (tcp_ustep db cap) http_step tls_ufn c st sh tr.
+Proof. exact trace_union_tcp_tls_concrete. Qed.
+Check C20_trace_union_tcp_tls_concrete :
+  forall (SH : Type) (http_step : SH -> TcpAnalyzer.tcp_event -> SH * pres) (db : list (bytes * list N)) (cap : N)
+         (c : cfg) (tr : list TcpAnalyzer.tcp_event) (st : TcpAnalyzer.tcp_state) (sh : SH),
+  trace_accepts TcpAnalyzer.tcp_event TcpAnalyzer.tcp_state SH (tcp_ustep db cap) http_step tls_ufn c st sh tr ->
+  map Some (unified_run TcpAnalyzer.tcp_event TcpAnalyzer.tcp_state SH (tcp_ustep db cap) http_step tls_ufn c (st, sh) tr)
+  = spec_run_enabled TcpAnalyzer.tcp_event TcpAnalyzer.tcp_state SH (tcp_ustep db cap) http_step tls_ufn c st sh tr.
+Print Assumptions C20_trace_union_tcp_tls_concrete.
+
+(* with HTTP disabled the acceptance hypothesis is discharged down to a condition on the frames: the stateless TLS
+   path never rejects (proved), the TCP analyzer rejects exactly the frames TcpExtract.process_frame rejects
+   (non-TCP, fragments, no TCP view, invalid flag combinations) *)
+Theorem C20_trace_union_tcp_tls_no_http :
+  forall (SH : Type) (http_step : SH -> TcpAnalyzer.tcp_event -> SH * pres) (db : list (bytes * list N)) (cap : N)
+         (c : cfg) (tr : list TcpAnalyzer.tcp_event) (st : TcpAnalyzer.tcp_state) (sh : SH),
+  http_en c = false ->
+  (tcp_en c = true -> forall e, In e tr -> TcpExtract.process_frame db (fst e) <> TcpExtract.Err) ->
+  map Some (unified_run TcpAnalyzer.tcp_event TcpAnalyzer.tcp_state SH (tcp_ustep db cap) http_step tls_ufn c (st, sh) tr)
+  = spec_run_enabled TcpAnalyzer.tcp_event TcpAnalyzer.tcp_state SH (tcp_ustep db cap) http_step tls_ufn c st sh tr.
+Proof. exact trace_union_no_http. Qed.
+Check C20_trace_union_tcp_tls_no_http :
+  forall (SH : Type) (http_step : SH -> TcpAnalyzer.tcp_event -> SH * pres) (db : list (bytes * list N)) (cap : N)
+         (c : cfg) (tr : list TcpAnalyzer.tcp_event) (st : TcpAnalyzer.tcp_state) (sh : SH),
+  http_en c = false ->
+  (tcp_en c = true -> forall e, In e tr -> TcpExtract.process_frame db (fst e) <> TcpExtract.Err) ->
+  map Some (unified_run TcpAnalyzer.tcp_event TcpAnalyzer.tcp_state SH (tcp_ustep db cap) http_step tls_ufn c (st, sh) tr)
+  = spec_run_enabled TcpAnalyzer.tcp_event TcpAnalyzer.tcp_state SH (tcp_ustep db cap) http_step tls_ufn c st sh tr.
+Print Assumptions C20_trace_union_tcp_tls_no_http.
+
+(* satisfiable: TCP + TLS enabled, HTTP disabled, matcher off; SYN and ACK of a connection with a 1000 Hz
+   timestamp clock, then a whole ClientHello of another flow: which of the eight groups each packet shows *)
+Example C20_tcp_tls_concrete_example :
+  ctor_ok c20_cfg = true /\
+  (forall e, In e c20_trace -> TcpExtract.process_frame [] (fst e) <> TcpExtract.Err) /\
+  map shown_mask (unified_run TcpAnalyzer.tcp_event TcpAnalyzer.tcp_state unit (tcp_ustep [] 8) no_http tls_ufn c20_cfg ([], tt) c20_trace)
+  = [ [true; false; false; false; false; false; false; false];
+      [false; true; false; true; false; false; false; false];
+      [false; true; false; false; false; false; false; true] ].
+Proof. exact c20_example. Qed.
